@@ -52,9 +52,21 @@ int vnadata_set_fz0_vector(vnadata_t *vdp, int findex,
     }
     ports = MAX(vdp->vd_rows, vdp->vd_columns);
     if (!(vdip->vdi_flags & VF_PER_F_Z0)) {
+	/*
+	 * The caller's vector may be the one vnadata_get_z0_vector or
+	 * vnadata_get_fz0_vector returned, which the conversion frees:
+	 * copy it first.
+	 */
+	double complex temp[MAX(ports, 1)];
+
+	(void)memcpy((void *)temp, (void *)z0_vector,
+		ports * sizeof(double complex));
 	if (_vnadata_convert_to_fz0(vdip) == -1) {
 	    return -1;
 	}
+	(void)memcpy((void *)vdip->vdi_z0_vector_vector[findex],
+		(void *)temp, ports * sizeof(double complex));
+	return 0;
     }
     (void)memcpy((void *)vdip->vdi_z0_vector_vector[findex],
 	    (void *)z0_vector, ports * sizeof(double complex));
